@@ -117,6 +117,15 @@ def run(ctx):
             raise core.Machinery('time acceptor self-test failed: %s' % [p for p in rej if p[1] == 10 ** 8])
         ctx.extra['acceptor_selftest'] = 'changed offset and non-canonical output injected, both rejected'
         bad = 0
+        for q in r.printed:
+            # outputs the model reproduces exactly under the named deviations of the time encoder
+            if isinstance(q, list) and len(q) == 4 and q[0] == 'DEV' and q[1] != 10 ** 8:
+                e = traces[q[1] - 1]['ev'][q[2] - 1]
+                text = bytes(e['text']).decode()
+                ctx.report('deviation %s: %s.encode(%s(%r)) -> %r' % (sorted(q[3]), e['codec'], e['kind'], text, bytes(e['out']).decode('latin-1')),
+                           {'clause': 'NotCanonical', 'op': 'enc', 'kind': e['kind'], 'devs': sorted(q[3])},
+                           {'prop': 'C20', 'event': e, 'clause': 'deviation', 'devs': sorted(q[3])})
+                bad += 1
         for _, tid, j, clause in rej:
             if tid == 10 ** 8:
                 continue
